@@ -78,7 +78,7 @@ def mlen(y, m):
 
 def civil(days):
     """inverse of days_to by plain year/month stepping (days >= 0 or small negative)"""
-    y = 1970 + days // 366
+    y = 1970 + (days * 400) // 146097 - 1
     while days_to(y + 1, 1, 1) <= days:
         y += 1
     while days_to(y, 1, 1) > days:
